@@ -252,7 +252,7 @@ def check_async(task: Task, io: BaseNodeIO, copy: ArchiveFileCopy) -> None:
             # Abandon the check attempt if we can't stat
             return
 
-        if copy.file.size_b and size != copy.file.size_b:
+        if copy.file.size_b is not None and size != copy.file.size_b:
             log.error(
                 f"File {copyname} on node {io.node.name} is corrupt! "
                 f"Size: {size}; expected: {copy.file.size_b}"
